@@ -664,8 +664,13 @@ Lemma xelem2_1 : forall a b,
 Proof. intros; unfold xelem; rewrite R2Z_1; reflexivity. Qed.
 
 Definition bc_eps : R := D2R c_1em5.
+Lemma D2R_pos : forall m e, (0 < m)%Z -> 0 < D2R (m, e).
+Proof.
+  intros m e H. unfold D2R; cbn [fst snd].
+  apply Rmult_lt_0_compat; [apply IZR_lt; assumption | apply powerRZ_lt; lra].
+Qed.
 Lemma bc_eps_pos : 0 < bc_eps.
-Proof. unfold bc_eps, D2R, c_1em5; cbn [fst snd]. interval. Qed.
+Proof. apply D2R_pos; reflexivity. Qed.
 Lemma bc_eps_value : Rabs (bc_eps - 1 / 100000) <= 1 / 10 ^ 21.
 Proof. unfold bc_eps, D2R, c_1em5; cbn [fst snd]. interval with (i_prec 120). Qed.
 
@@ -811,11 +816,11 @@ Proof. unfold k_sqrt2pi, D2R, c_sqrt2pi; cbn [fst snd]. interval with (i_prec 80
 Lemma k_sqrt2pi_ratio : Rabs (sqrt (2 * PI) / k_sqrt2pi - 1) <= 2 / 10 ^ 10.
 Proof. unfold k_sqrt2pi, D2R, c_sqrt2pi; cbn [fst snd]. interval with (i_prec 80). Qed.
 Lemma k_sqrt2pi_pos : 0 < k_sqrt2pi.
-Proof. unfold k_sqrt2pi, D2R, c_sqrt2pi; cbn [fst snd]. interval. Qed.
+Proof. apply D2R_pos; reflexivity. Qed.
 Lemma k_halflog2pi_close : Rabs (k_halflog2pi - ln (2 * PI) / 2) <= 1 / 10 ^ 11.
 Proof. unfold k_halflog2pi, D2R, c_halflog2pi; cbn [fst snd]. interval with (i_prec 80). Qed.
 Lemma sqrt2pi_pos : 0 < sqrt (2 * PI).
-Proof. interval. Qed.
+Proof. apply sqrt_lt_R0. apply Rmult_lt_0_compat; [lra | apply PI_RGT_0]. Qed.
 
 (* the normal density written with an arbitrary normalising constant c *)
 Definition npdf_c (c m s x : R) : R := exp (- (x - m) * (x - m) / (2 * s * s)) / (s * c).
